@@ -15,6 +15,8 @@ CONSTANTS
   Scales = {1, 2, 3, 4}
   MaxOffset = 9
   UnitExps <- MC_UnitExps
+  TCoefs <- MC_TCoefs
+  TMaxDeg = 2
 INVARIANT ModelWellFormed
 INVARIANT NamesInjective
 INVARIANT StripRecoversBase
